@@ -255,9 +255,36 @@ pub trait Dyn {
     /// `false` if the nesting has no `Arbitrary` implementation.
     fn wr(&mut self, s: String) -> bool;
     fn stats(&self) -> [usize; 6];
+    /// Replaces the writer by a clone of itself (the original is dropped); a no-op for
+    /// nestings that are not driven that way.
+    fn reclone(&mut self) {}
 }
 
 struct WithArb<W>(W);
+/// Like `WithArb`, for nestings that are cloned after every input: the run continues on
+/// the clone (a writer handed from one owner to the next), which must carry all pending state.
+struct WithArbC<W>(W);
+
+impl<W> Dyn for WithArbC<W>
+where
+    W: writer::Stats<TW> + writer::Arbitrary<TW, String> + Clone,
+    W::Cli: Default,
+{
+    fn ev(&mut self, item: RawItem) {
+        self.0.handle_event(item, &W::Cli::default()).now_or_never().expect("suspended");
+    }
+    fn wr(&mut self, s: String) -> bool {
+        self.0.write(s).now_or_never().expect("suspended");
+        true
+    }
+    fn stats(&self) -> [usize; 6] {
+        stats_of(&self.0)
+    }
+    fn reclone(&mut self) {
+        let copy = self.0.clone();
+        self.0 = copy;
+    }
+}
 struct NoArb<W>(W);
 
 fn stats_of<W: writer::Stats<TW>>(w: &W) -> [usize; 6] {
@@ -351,6 +378,25 @@ pub fn nestings() -> Vec<(&'static str, usize, WExpr, Box<dyn Fn() -> Box<dyn Dy
         1,
         X::RepAll(r(0)),
         Box::new(|| Box::new(WithArb(SRec(0).repeat_if::<TW, _>(every_item as fn(&RawItem) -> bool)))),
+    ));
+    // the same wrappers with the run continuing on a clone after every input
+    v.push((
+        "Repeat::failed (cloned after every input)",
+        1,
+        X::RepFailed(r(0)),
+        Box::new(|| Box::new(WithArbC(SRec(0).repeat_failed::<TW>()))),
+    ));
+    v.push((
+        "Repeat::new(everything) (cloned after every input)",
+        1,
+        X::RepAll(r(0)),
+        Box::new(|| Box::new(WithArbC(SRec(0).repeat_if::<TW, _>(every_item as fn(&RawItem) -> bool)))),
+    ));
+    v.push((
+        "FailOnSkipped<Repeat::skipped> (cloned after every input)",
+        1,
+        X::Fos(Box::new(X::RepSkipped(r(0)))),
+        Box::new(|| Box::new(WithArbC(SRec(0).repeat_skipped::<TW>().fail_on_skipped()))),
     ));
     v.push(("Tee", 2, X::Tee(r(0), r(1)), Box::new(|| Box::new(WithArb(SRec(0).tee::<TW, _>(SRec(1)))))));
     v.push((
@@ -543,6 +589,7 @@ pub fn run_one(
                 }
             }
         }
+        real.reclone();
         if RESTAMPED.with(std::cell::Cell::get) > 0 {
             return Some(format!(
                 "after input #{k} ({}) an event reached an inner writer with a new timestamp: combinators forward (or replay) the event they were given, metadata included",
